@@ -55,7 +55,7 @@ def base_pdus(r):
         tree = gen.gen_assoc(r, t, canonical=True)
         return 'assoc%d' % t, R.build_pdu(tree)
     if k < 0.35:
-        sym = r.choice(['pRQ', 'pAC'])
+        sym = r.choice(['pRQ', 'pAC', 'pRQv2', 'pRQv3'])
         return sym, F.PEER[sym]
     if k < 0.7:
         # P-DATA-TF carrying (part of) a DIMSE message
@@ -285,6 +285,22 @@ def m_long_digit_uid(r, raw):
             n = struct.unpack('>H', out[h + 2:h + 4])[0] + delta
             out = out[:h + 2] + struct.pack('>H', n & 0xFFFF) + out[h + 4:]
     return fix_outer(out)
+
+
+@mutator
+def m_deep_nesting(r, raw):
+    """A complete command set that carries sequences of undefined length nested a few hundred levels
+    deep (a few KB): structurally parseable, but not by a recursive parser with a finite stack."""
+    if not raw or raw[0] != 4:
+        return m_bitflips(r, raw)
+    depth = r.choice([50, 200, 400, 900])
+    inner = b''
+    for _ in range(depth):
+        inner = struct.pack('<HHI', 0x0009, 0x1001, 0xFFFFFFFF) + struct.pack('<HHI', 0xFFFE, 0xE000, 0xFFFFFFFF) \
+            + inner + struct.pack('<HHI', 0xFFFE, 0xE00D, 0) + struct.pack('<HHI', 0xFFFE, 0xE0DD, 0)
+    payload = F.echo_rq_command(r.randrange(65536)) + inner
+    pdv = struct.pack('>IB', len(payload) + 2, r.choice([1, 3])) + b'\x03' + payload
+    return fix_outer(raw[:6] + pdv)
 
 
 def message_in_progress(r):
